@@ -1,4 +1,4 @@
-import CashewsVerif.Lemmas.TxProps
+import CashewsVerif.Lemmas.TxModes
 import CashewsVerif.Lemmas.TxNest
 import CashewsVerif.Props.C04
 /-
@@ -116,28 +116,27 @@ theorem no_lock_key_survives (K : List Key) (b : Mem) (ops : List Op) (hs : TxSe
   obtain ⟨t2, g2, _, r2, _⟩ := TxSt.rollback_refines href
   exact ⟨by rw [g1.ref.2 k, r1 k hr], by rw [g2.ref.2 k, r2 k hr]⟩
 
-/-- **The three modes agree for a single task**: the same commands give the same answers in fast, locked
-and serializable mode (no proviso), leave the same store after rollback (no proviso, all keys), and —
-under the proviso — the same store after commit (all keys, values and deadlines). -/
+/-- **The three modes agree for a single task** — no proviso.  The same commands give the same answers in
+fast, locked and serializable mode, leave the same overlay and pending deletes, the same store after
+rollback and the same store after commit (every key, values and deadlines). -/
 theorem modes_agree_single_task (K : List Key) (b : Mem) (ops : List Op) (hs : TxSetup K b ops)
     (m1 m2 : TxMode) (id1 id2 t1 t2 : Nat) :
     ((TxSt.begin_ b m1 id1 t1).run ops).2 = ((TxSt.begin_ b m2 id2 t2).run ops).2 ∧
     (∀ k, ((TxSt.begin_ b m1 id1 t1).run ops).1.rollback.b.view k = ((TxSt.begin_ b m2 id2 t2).run ops).1.rollback.b.view k) ∧
-    (NoDeadlineCrossed b ops = true →
-      ∀ k, ((TxSt.begin_ b m1 id1 t1).run ops).1.commit.b.view k = ((TxSt.begin_ b m2 id2 t2).run ops).1.commit.b.view k) := by
-  refine ⟨?_, fun k => ?_, fun hn k => ?_⟩
+    (∀ k, ((TxSt.begin_ b m1 id1 t1).run ops).1.commit.b.view k = ((TxSt.begin_ b m2 id2 t2).run ops).1.commit.b.view k) := by
+  refine ⟨?_, fun k => ?_, fun k => ?_⟩
   · rw [(reach hs m1 id1 t1).choose_spec.2, (reach hs m2 id2 t2).choose_spec.2]
   · rw [rollback_is_identity K b ops hs m1 id1 t1 k, rollback_is_identity K b ops hs m2 id2 t2 k]
-  · obtain ⟨ta, ha, _⟩ := reachNdc hs hn m1 id1 t1
-    obtain ⟨tb, hb, _⟩ := reachNdc hs hn m2 id2 t2
+  · obtain ⟨ta, ha, _⟩ := reach hs m1 id1 t1
+    obtain ⟨tb, hb, _⟩ := reach hs m2 id2 t2
     obtain ⟨ta', ga, _, ra, ua⟩ := TxSt.commit_refines ha (wfReach hs)
     obtain ⟨tb', gb, _, rb, ub⟩ := TxSt.commit_refines hb (wfReach hs)
-    rw [expired_nil_of_fresh ha (Nat.le_of_eq (now_of_ref hs ha).2.1)] at ua
-    rw [expired_nil_of_fresh hb (Nat.le_of_eq (now_of_ref hs hb).2.1)] at ub
+    have hsame := sameOv_reach hs m1 m2 id1 id2 t1 t2
+    have hnow := ((now_of_ref hs ha).2.1).trans ((now_of_ref hs hb).2.1).symm
     rw [ga.ref.2 k, gb.ref.2 k]
     cases hr : reserved k with
     | true => rw [ra k hr, rb k hr]
-    | false => rw [ua k hr, ub k hr]
+    | false => rw [ua k hr, ub k hr, hsame.1, hnow]
 
 /-- **Nested blocks join the outermost one** (any depth, any inner modes, inner blocks left normally or by a
 caught exception): erasing every inner `enter … exit` pair from a task's program changes neither the
